@@ -20,9 +20,10 @@
    Text is a sequence of one-character strings ("NL", "TAB" symbolic). *)
 EXTENDS Integers, Sequences, FiniteSets, TLC, Json, ShText
 
-CONSTANTS Fams,      \* set of operator families to enumerate
-          MaxPat,    \* maximal number of pattern elements (rem, repl)
-          Wide       \* BOOLEAN: wide menus (thorough tier)
+CONSTANTS Fams,       \* set of operator families to enumerate
+          MaxPat,     \* maximal number of pattern elements for # ## % %%
+          MaxPatRepl, \* maximal number of pattern elements for / // /# /%
+          Wide        \* BOOLEAN: wide menus (thorough tier)
 
 \* ------------------------------------------------------------------ text helpers
 DigitCh == <<"0","1","2","3","4","5","6","7","8","9">>
@@ -112,6 +113,8 @@ PatStores ==
   << ScalarStores[1], ScalarStores[2], ScalarStores[3], ScalarStores[4], ScalarStores[5],
      Store(ArrVals[5], <<>>, Dflt), Store(ArrVals[7], <<>>, Dflt), Store(ArrVals[9], <<>>, Dflt),
      PStore(ParamMenu[5], Dflt), PStore(ParamMenu[5], <<":">>) >>
+  \o (IF Wide THEN << Store(VStr(tPad), <<>>, Dflt), Store(VStr(tQuote), <<>>, Dflt), Store(VStr(tNl), <<>>, Dflt),
+                      Store(ArrVals[4], <<>>, <<":">>), PStore(ParamMenu[4], <<>>) >> ELSE <<>>)
 
 \* x holds the name of another parameter (family "ind")
 IndVals == << <<"y">>, <<"u">>, <<"e">>, <<"1">>, <<"2">>, <<"w">>, <<"w","[","1","]">>, <<"w","[","@","]">>,
@@ -201,7 +204,8 @@ PDqAny   == PE("lit", "?", {}, FALSE, <<"\"","?","\"">>)   \* "?" : a literal ?
 PSqSp    == PE("lit", " ", {}, FALSE, <<"'"," ","'">>)     \* ' ' : a literal space
 
 PatAlpha == << PLit("a"), PLit("b"), PLit("c"), PStar, PAny, PSetAB >>
-            \o (IF Wide THEN << PSetNotA, PBsStar, PSqStar, PDqAny, PSqSp, PLit("l"), PLit("H"), PSetLo >> ELSE <<>>)
+RemAlpha  == PatAlpha \o (IF Wide THEN << PSetNotA, PBsStar, PSqStar, PDqAny >> ELSE <<>>)
+ReplAlpha == PatAlpha \o (IF Wide THEN << PBsStar, PSqSp >> ELSE <<>>)
 \* patterns for case modification: one element (it is matched against single characters)
 CaseAlpha == << PLit("a"), PLit("l"), PLit("H"), PAny, PStar, PSetAB, PSetLo, PLit("h") >>
 
@@ -231,6 +235,17 @@ RemOp(op, p, s) ==
   ELSE
      LET L == SuffixLens(p, s) IN
      IF L = {} THEN s ELSE Take(s, Len(s) - (IF op = "%" THEN MinOf(L) ELSE MaxOf(L)))
+
+\* What the implementation computes for ${t%p} (the deviation SuffixStopsAtNewline): the regexp ".*(p)$" is
+\* searched leftmost-first and "." does not match a newline, so the cut lies in the first line (from the
+\* left) that has one: there the rightmost cut k such that p matches the rest t[k+1..].
+NlSegEnd(t, i) == IF \E j \in (i + 1)..Len(t) : t[j] = "NL"
+                  THEN (CHOOSE j \in (i + 1)..Len(t) : t[j] = "NL" /\ \A m \in (i + 1)..(j - 1) : t[m] # "NL") - 1
+                  ELSE Len(t)
+DevPctRemove(p, t) ==
+  LET cuts(i) == { k \in i..NlSegEnd(t, i) : Match(p, Drop(t, k)) }
+      starts == { i \in 0..Len(t) : cuts(i) # {} }
+  IN IF starts = {} THEN t ELSE Take(t, MaxOf(cuts(MinOf(starts))))
 
 \* longest match of p starting at position i (1-based) of s: its length, or -1
 MatchLenAt(p, s, i) ==
@@ -345,8 +360,8 @@ Assign(s, j, t) ==
 Arg(op, w, off, len, r) == [op |-> op, w |-> w, off |-> off, len |-> len, r |-> r]
 A0 == Arg("", 1, 0, 99, 1)
 NoLen == 99
-Offs == IF Wide THEN {0, 1, 2, 3, 7, 0 - 1, 0 - 2, 0 - 7} ELSE {0, 1, 2, 7, 0 - 1, 0 - 7}
-Lens == IF Wide THEN {NoLen, 0, 1, 2, 9, 0 - 1, 0 - 2, 0 - 5} ELSE {NoLen, 0, 1, 2, 0 - 1, 0 - 5}
+Offs == IF Wide THEN {0, 1, 2, 3, 7, 0 - 1, 0 - 2, 0 - 7} ELSE {0, 1, 2, 0 - 1, 0 - 7}
+Lens == IF Wide THEN {NoLen, 0, 1, 2, 9, 0 - 1, 0 - 5} ELSE {NoLen, 0, 1, 0 - 1, 0 - 5}
 TestOps == {":-", "-", ":=", "=", ":?", "?", ":+", "+"}
 RemOps  == {"#", "##", "%", "%%"}
 ReplOps == {"/", "//", "/#", "/%"}
@@ -354,7 +369,8 @@ CaseOps == {"^", "^^", ",", ",,"}
 AtOps   == {"Q", "U", "L", "u"}
 
 Args(f) ==
-  CASE f = "test" -> { Arg(op, w, 0, NoLen, 1) : op \in TestOps, w \in 1..NWords }
+  CASE f = "test" -> { Arg(op, w, 0, NoLen, 1) : op \in TestOps \ {":?", "?"}, w \in 1..NWords }
+                     \cup { Arg(op, w, 0, NoLen, 1) : op \in {":?", "?"}, w \in 1..(IF Wide THEN 3 ELSE 2) }   \* the word is only a message
     [] f = "sub"  -> { Arg("", 1, o, l, 1) : o \in Offs, l \in Lens }
     [] f = "rem"  -> { Arg(op, 1, 0, NoLen, 1) : op \in RemOps }
     [] f = "repl" -> { Arg(op, 1, 0, NoLen, r) : op \in ReplOps, r \in 1..NRepls }
@@ -364,8 +380,8 @@ Args(f) ==
     [] OTHER      -> { A0 }
 
 PatFams == {"rem", "repl", "case"}
-PatBound(f) == IF f = "case" THEN 1 ELSE MaxPat
-AlphaOf(f) == IF f = "case" THEN CaseAlpha ELSE PatAlpha
+PatBound(f) == IF f = "case" THEN 1 ELSE IF f = "repl" THEN MaxPatRepl ELSE MaxPat
+AlphaOf(f) == IF f = "case" THEN CaseAlpha ELSE IF f = "rem" THEN RemAlpha ELSE ReplAlpha
 
 \* ------------------------------------------------------------------ semantics
 IndTarget(t) ==   \* the parameter a text names, for ${!x}; n = "" means: not a valid name
@@ -407,65 +423,161 @@ SlicePos(ps, off, len) ==
       rest == Drop(ps, Min(n, from - 1))
   IN IF len = NoLen THEN rest ELSE Take(rest, Min(Len(rest), len))
 
-Sem(f, s, j, q, a, p) ==
-  LET vw == View(s, j)
+\* ---- named deviations of the implementation (see the header).  Sem takes the set dv of
+\* deviations that are switched on; Sem({}, ...) is the contract.
+\*  ListOpJoined         an unquoted list parameter ($@ $* x[@] x[*]) with any operator is expanded as ONE
+\*                       string (elements joined) that counts as set iff the variable is declared, and the
+\*                       operator is applied to that string (expand.go unquotedElemFields gives up, param.go joins)
+\*  AssignAt0            ${x[@]:=w} ${x[*]:=w} assign element 0; ${@:=w} ${1:=w} are accepted and expand to w (param.go assignElem)
+\*  ListTestIgnored      "${@:-w}" "${x[@]:+w}" ...: the test operator is ignored on a quoted list (expand.go
+\*                       quotedElemFields/perElemOps leave the elements unchanged)
+\*  ListAtIgnored        "${@@Q}" "${x[@]@U}" ...: likewise the @ operators
+\*  WordQuotesIgnored    quoting inside the argument word of :- := :+ ... is dropped (param.go uses Literal)
+\*  NegLenClamped        a negative length that bash rejects ("substring expression < 0") is clamped
+\*  AnchoredReplLiteral  ${x/#p/r} ${x/%p/r}: the # or % is taken as a literal pattern character
+\*  UnsetTransformed     an unset parameter is transformed like an empty string (so ${u/*/X} is X, ${u@Q} is '')
+\*  QSafeUnquoted        ${x@Q} leaves strings that need no quoting unquoted (DOCUMENTED in the property)
+\*  QDoubleQuoted        ${x@Q} of a string with a single quote and nothing else special uses "..." (syntax.Quote)
+\*  KeysOfScalar         ${!x[@]} of a scalar is taken as an indirection (bash: the key 0)
+\*  KeysJoined           unquoted ${!x[@]} ${!p@}: the keys/names are joined into one string before splitting
+\*  EmptyFieldsDropped   (C22's finding, modelled here to recognise its combinations) a non-whitespace IFS
+\*                       character never delimits an empty field: IFS=: a::b gives a b
+\*  SuffixStopsAtNewline ${x%p} on a value with a newline: the shortest-suffix search cannot cross a newline
+\*                       (param.go removePattern prepends ".*" without the (?s) flag)
+\*  LenAssocOne          ${#x[@]} of an associative array is 1
+\*  IndirectSubscript    ${!x} with x='w[1]' (a subscripted name) expands to nothing
+\*  IndirectBadName      ${!x} with x holding something that is not a name (bash: "invalid variable name") expands to nothing
+\*  PatQuotesIgnored     ${x#'*'} ${x%"?"}: quotes around pattern characters of # ## % %% are dropped, the character
+\*                       acts as a wildcard (param.go expands the argument with Literal, not Pattern)
+\*  NamesAtEmptyField    "${!p@}" with no matching name gives one empty field instead of none
+AllDevs == {"ListOpJoined", "AssignAt0", "ListTestIgnored", "ListAtIgnored", "WordQuotesIgnored", "NegLenClamped",
+            "AnchoredReplLiteral", "UnsetTransformed", "QSafeUnquoted", "QDoubleQuoted", "KeysOfScalar", "KeysJoined",
+            "LenAssocOne", "IndirectSubscript", "IndirectBadName", "NamesAtEmptyField", "PatQuotesIgnored",
+            "EmptyFieldsDropped", "SuffixStopsAtNewline"}
+DevsOf(f) ==
+  CASE f = "test" -> {"ListOpJoined", "AssignAt0", "ListTestIgnored", "WordQuotesIgnored"}
+    [] f = "sub"  -> {"NegLenClamped"}
+    [] f = "rem"  -> {"ListOpJoined", "PatQuotesIgnored", "SuffixStopsAtNewline"}
+    [] f = "case" -> {"ListOpJoined"}
+    [] f = "repl" -> {"ListOpJoined", "AnchoredReplLiteral", "UnsetTransformed"}
+    [] f = "at"   -> {"ListOpJoined", "ListAtIgnored", "UnsetTransformed", "QSafeUnquoted", "QDoubleQuoted"}
+    [] f = "keys" -> {"KeysOfScalar", "KeysJoined"}
+    [] f = "len"  -> {"LenAssocOne"}
+    [] f = "ind"  -> {"IndirectSubscript", "IndirectBadName"}
+    [] f = "names" -> {"NamesAtEmptyField", "KeysJoined"}
+    [] OTHER -> {}
+
+\* a quoted * or ? taken as the wildcard
+UnquotePat(p) == [i \in 1..Len(p) |->
+                   IF p[i].k = "lit" /\ p[i].c = "*" /\ p[i].src[1] \in {"'", "\""} THEN PStar
+                   ELSE IF p[i].k = "lit" /\ p[i].c = "?" /\ p[i].src[1] \in {"'", "\""} THEN PAny
+                   ELSE p[i]]
+QUnsafe == {";", "\"", "'", "(", ")", "$", "|", "&", ">", "<", "`", " ", "TAB", "CR", "NL", "\\", "#", "{", "~", "*", "?", "[", "="}
+SafeQ(t) == t # <<>> /\ \A i \in 1..Len(t) : t[i] \notin QUnsafe
+DqQ(t) == (\E i \in 1..Len(t) : t[i] = "'") /\ \A i \in 1..Len(t) : t[i] \notin (QUnsafe \ {"'"})
+
+Sem(dv, f, s, j, q, a, p) ==
+  LET vw0 == View(s, j)
+      hasOp == f \in {"test", "rem", "repl", "case", "at"}
+      declared == j.n \in {"@", "*"} \/ s.x.k # "unset"
+      listFast == j.n \in {"@", "*"} \/ s.x.k \in {"idx", "assoc"} \/ (s.x.k = "unset" /\ ~vw0.star)
+      joinMode == "ListOpJoined" \in dv /\ ~q /\ vw0.list /\ hasOp
+      joinSep  == IF vw0.star THEN Ifs1(s.ifs) ELSE <<" ">>
+      \* rem/case/repl on an indexed list: applied per element, THEN joined; anything else: joined first
+      \* (an associative array's values in sorted order)
+      joinLate == joinMode /\ f \in {"rem", "case", "repl"} /\ s.x.k # "assoc"
+      vw == IF joinMode /\ ~joinLate
+            THEN VwS(declared, JoinT(IF s.x.k = "assoc" THEN SortTexts({vw0.vals[i] : i \in 1..Len(vw0.vals)}) ELSE vw0.vals, joinSep))
+            ELSE vw0
       txt == IF vw.set THEN vw.t ELSE <<>>       \* scalar text ("" when unset)
       keep == s.x
       \* a transformation applies to each element of a list; an unset parameter expands to nothing
-      perElem(fn(_)) == IF vw.list THEN RL([i \in 1..Len(vw.vals) |-> fn(vw.vals[i])], vw.star, keep, vw.unord)
-                        ELSE IF ~vw.set THEN RS(<<>>, keep) ELSE RS(fn(txt), keep)
+      perElem(fn(_)) == IF joinLate THEN RS(JoinT([i \in 1..Len(vw.vals) |-> fn(vw.vals[i])], joinSep), keep)
+                        ELSE IF vw.list THEN RL([i \in 1..Len(vw.vals) |-> fn(vw.vals[i])], vw.star, keep, vw.unord)
+                        ELSE IF ~vw.set /\ "UnsetTransformed" \notin dv THEN RS(<<>>, keep) ELSE RS(fn(txt), keep)
       \* ${!x[*]} and ${!p*} unquoted: one string (joined with a space when IFS is empty), split afterwards
+      \* (${!p*} with an empty IFS: joined with nothing)
       starNames(ns) == IF q THEN RL(ns, TRUE, keep, FALSE)
-                       ELSE RS(JoinT(ns, IF s.ifs = <<>> THEN <<" ">> ELSE Ifs1(s.ifs)), keep)
+                       ELSE RS(JoinT(ns, IF s.ifs = <<>> /\ f = "keys" THEN <<" ">> ELSE Ifs1(s.ifs)), keep)
+      assign(t) == IF "AssignAt0" \in dv /\ (vw0.list \/ IsPosName(j.n))
+                   THEN (IF j.n # "x" THEN [ok |-> TRUE, x |-> s.x] ELSE Assign(s, Sj("x", SubNone), t))
+                   ELSE Assign(s, j, t)
+      \* the list as the implementation's fast path sees it (values of an associative array sorted)
+      vwF == IF s.x.k = "assoc" /\ vw0.list
+             THEN VwL(SortTexts({vw0.vals[i] : i \in 1..Len(vw0.vals)}), vw0.star, vw0.unord) ELSE vw0
+      atop(t) == IF a.op = "Q" /\ "QSafeUnquoted" \in dv /\ SafeQ(t) THEN t
+                 ELSE IF a.op = "Q" /\ "QDoubleQuoted" \in dv /\ DqQ(t) THEN <<"\"">> \o t \o <<"\"">>
+                 ELSE AtOp(a.op, t)
   IN
   CASE f = "plain" -> RView(vw, keep)
     [] f = "test" ->
+         IF "ListTestIgnored" \in dv /\ q /\ vw0.list /\ listFast THEN RView(vwF, keep)
+         ELSE
          LET unsetp == ~vw.set
              nullp  == IF vw.list THEN ListAsText(vw, s.ifs, q) = <<>> ELSE txt = <<>>
              colon  == a.op \in {":-", ":=", ":?", ":+"}
              miss   == unsetp \/ (colon /\ nullp)
              w      == Words[a.w]
-         IN (CASE a.op \in {":-", "-"} -> IF miss THEN RW(w, keep) ELSE RView(vw, keep)
-              [] a.op \in {":+", "+"} -> IF miss THEN (IF vw.list THEN RView(vw, keep) ELSE RS(<<>>, keep)) ELSE RW(w, keep)
+             rw     == IF "WordQuotesIgnored" \in dv THEN RS(WordText(w, FALSE), keep) ELSE RW(w, keep)
+         IN (CASE a.op \in {":-", "-"} -> IF miss THEN rw ELSE RView(vw, keep)
+              [] a.op \in {":+", "+"} -> IF miss THEN (IF vw.list THEN RView(vw, keep) ELSE RS(<<>>, keep)) ELSE rw
               [] a.op \in {":?", "?"} -> IF miss THEN RErr(keep) ELSE RView(vw, keep)
               [] a.op \in {":=", "="} ->
                    IF ~miss THEN RView(vw, keep)
-                   ELSE LET as == Assign(s, j, <<>>) IN   \* probe assignability first
-                        IF ~as.ok THEN RErr(keep)
-                        ELSE LET t == WordText(w, q) IN   \* the assigned text depends on the quoting context
-                             RS(t, Assign(s, j, t).x))
-    [] f = "len" -> RS(NatText(IF vw.list THEN Len(vw.vals) ELSE Len(txt)), keep)
+                   ELSE IF ~assign(<<>>).ok THEN RErr(keep)     \* probe assignability first
+                   ELSE LET t == WordText(w, q /\ "WordQuotesIgnored" \notin dv) IN   \* the assigned text depends on the quoting context
+                        RS(t, assign(t).x))
+    [] f = "len" -> IF "LenAssocOne" \in dv /\ vw.list /\ s.x.k = "assoc" THEN RS(<<"1">>, keep)
+                    ELSE RS(NatText(IF vw.list THEN Len(vw.vals) ELSE Len(txt)), keep)
     [] f = "sub" ->
          IF ~vw.list THEN
             (IF ~vw.set THEN RS(<<>>, keep)      \* an unset parameter: nothing, the range is not even checked
-             ELSE LET r == SubStr(txt, a.off, a.len) IN IF r.err THEN RErr(keep) ELSE RS(r.t, keep))
-         ELSE IF j.n \in {"@", "*"} THEN
+             ELSE LET r == SubStr(txt, a.off, a.len) IN
+                  IF r.err THEN (IF "NegLenClamped" \in dv THEN RS(SubStr(txt, a.off, NoLen).t, keep) ELSE RErr(keep))
+                  ELSE RS(r.t, keep))
+         ELSE LET clamp(rest) == IF Len(rest) + a.len < 0 THEN rest ELSE Take(rest, Len(rest) + a.len) IN
+         IF j.n \in {"@", "*"} THEN
             LET n == Len(s.params)
                 o == IF a.off < 0 THEN n + 1 + a.off ELSE a.off
-            IN IF o < 0 \/ o > n + 1 THEN RL(<<>>, vw.star, keep, FALSE)
+            IN IF a.len # NoLen /\ a.len < 0 /\ "NegLenClamped" \in dv THEN RL(clamp(SlicePos(s.params, a.off, NoLen)), vw.star, keep, FALSE)
+               ELSE IF o < 0 \/ o > n + 1 THEN RL(<<>>, vw.star, keep, FALSE)
                ELSE IF a.len # NoLen /\ a.len < 0 THEN RErr(keep)
                ELSE RL(SlicePos(s.params, a.off, a.len), vw.star, keep, FALSE)
          ELSE \* an indexed array: offsets are indices; a start outside 0..max gives nothing
             LET v == s.x
                 o == IF a.off < 0 THEN IdxMax(v) + 1 + a.off ELSE a.off
-            IN IF o < 0 \/ o > IdxMax(v) THEN RL(<<>>, vw.star, keep, FALSE)
+            IN IF a.len # NoLen /\ a.len < 0 /\ "NegLenClamped" \in dv THEN RL(clamp(SliceIdx(v, a.off, NoLen)), vw.star, keep, FALSE)
+               ELSE IF o < 0 \/ o > IdxMax(v) THEN RL(<<>>, vw.star, keep, FALSE)
                ELSE IF a.len # NoLen /\ a.len < 0 THEN RErr(keep)
                ELSE RL(SliceIdx(v, a.off, a.len), vw.star, keep, FALSE)
-    [] f = "rem"  -> LET fn(t) == RemOp(a.op, p, t) IN perElem(fn)
-    [] f = "repl" -> LET fn(t) == ReplOp(a.op, p, t, Repls[a.r]) IN perElem(fn)
+    [] f = "rem"  -> LET pp == IF "PatQuotesIgnored" \in dv THEN UnquotePat(p) ELSE p
+                         fn(t) == IF "SuffixStopsAtNewline" \in dv /\ a.op = "%" THEN DevPctRemove(pp, t) ELSE RemOp(a.op, pp, t)
+                     IN perElem(fn)
+    [] f = "repl" -> LET fn(t) == IF "AnchoredReplLiteral" \in dv /\ a.op \in {"/#", "/%"}
+                                  THEN ReplOp("/", <<PLit(IF a.op = "/#" THEN "#" ELSE "%")>> \o p, t, Repls[a.r])
+                                  ELSE ReplOp(a.op, p, t, Repls[a.r])
+                     IN perElem(fn)
     [] f = "case" -> LET fn(t) == CaseOp(a.op, p, t) IN perElem(fn)
     [] f = "at" ->
-         IF vw.list THEN RL([i \in 1..Len(vw.vals) |-> AtOp(a.op, vw.vals[i])], vw.star, keep, vw.unord)
-         ELSE IF ~vw.set THEN RS(<<>>, keep) ELSE RS(AtOp(a.op, txt), keep)
+         IF "ListAtIgnored" \in dv /\ q /\ vw0.list /\ listFast THEN RView(vwF, keep)
+         ELSE IF "UnsetTransformed" \in dv /\ vw.list /\ vw.star /\ j.n = "x" /\ s.x.k = "unset" THEN RS(atop(<<>>), keep)
+         ELSE IF vw.list THEN RL([i \in 1..Len(vw.vals) |-> atop(vw.vals[i])], vw.star, keep, vw.unord)
+         ELSE IF ~vw.set /\ "UnsetTransformed" \notin dv THEN RS(<<>>, keep) ELSE RS(atop(txt), keep)
     [] f = "ind" ->
          IF ~vw.set THEN RErr(keep)
          ELSE LET tj == IndTarget(vw.t) IN
-              IF tj.n = "" THEN RErr(keep) ELSE RView(View(s, tj), keep)
-    [] f = "names" -> IF a.op = "*" THEN starNames(PrefixNames(a.w)) ELSE RL(PrefixNames(a.w), FALSE, keep, FALSE)
-    [] f = "keys" -> IF j.sub.k = "star" /\ ~(s.x.k = "assoc" /\ Len(s.x.akeys) > 1) THEN starNames(KeysOf(s.x))
-                     ELSE RL(KeysOf(s.x), j.sub.k = "star", keep, s.x.k = "assoc" /\ Len(s.x.akeys) > 1)
-
-SemQ(f, s, j, q, a, p) == Sem(f, s, j, q, a, p)
+              IF tj.n = "" THEN (IF "IndirectBadName" \in dv THEN RS(<<>>, keep) ELSE RErr(keep))
+              ELSE IF "IndirectSubscript" \in dv /\ tj.sub.k # "none" THEN RS(<<>>, keep)
+              ELSE RView(View(s, tj), keep)
+    [] f = "names" ->
+         IF "NamesAtEmptyField" \in dv /\ q /\ a.op = "@" /\ PrefixNames(a.w) = <<>> THEN RS(<<>>, keep)
+         ELSE IF "KeysJoined" \in dv /\ ~q THEN RS(JoinT(PrefixNames(a.w), IF a.op = "*" THEN Ifs1(s.ifs) ELSE <<" ">>), keep)
+         ELSE IF a.op = "*" THEN starNames(PrefixNames(a.w)) ELSE RL(PrefixNames(a.w), FALSE, keep, FALSE)
+    [] f = "keys" ->
+         IF "KeysOfScalar" \in dv /\ s.x.k = "str" THEN RS(<<>>, keep)
+         ELSE IF "KeysJoined" \in dv /\ ~q THEN RS(JoinT(KeysOf(s.x), IF j.sub.k = "star" THEN Ifs1(s.ifs) ELSE <<" ">>), keep)
+         ELSE IF j.sub.k = "star" /\ ~(s.x.k = "assoc" /\ Len(s.x.akeys) > 1) THEN starNames(KeysOf(s.x))
+         ELSE RL(KeysOf(s.x), j.sub.k = "star", keep, s.x.k = "assoc" /\ Len(s.x.akeys) > 1)
 
 \* ------------------------------------------------------------------ fields
 \* An element is a sequence of cells; a cell is a character with its quoting, or a
@@ -487,26 +599,28 @@ Elems(r, q, ifs) ==
          IF q THEN << CellsOf(WordText(r.w, TRUE), TRUE) >> ELSE << WordCells(r.w) >>
 
 \* field splitting of one element (bash manual 3.5.7)
-RECURSIVE SplitCells(_, _, _, _, _, _)
-SplitCells(cells, i, cur, has, wsf, ifs) ==
+\* (drop = the deviation EmptyFieldsDropped: a non-whitespace delimiter never opens an empty field)
+RECURSIVE SplitCells(_, _, _, _, _, _, _)
+SplitCells(cells, i, cur, has, wsf, ifs, drop) ==
   IF i > Len(cells) THEN (IF has THEN <<cur>> ELSE <<>>)
   ELSE LET ce == cells[i] IN
-    IF ce.m THEN SplitCells(cells, i + 1, cur, TRUE, FALSE, ifs)
-    ELSE IF ce.q \/ ~InSeq(ce.c, ifs) THEN SplitCells(cells, i + 1, Append(cur, ce.c), TRUE, FALSE, ifs)
+    IF ce.m THEN SplitCells(cells, i + 1, cur, TRUE, FALSE, ifs, drop)
+    ELSE IF ce.q \/ ~InSeq(ce.c, ifs) THEN SplitCells(cells, i + 1, Append(cur, ce.c), TRUE, FALSE, ifs, drop)
     ELSE IF IsWs(ce.c) THEN
-         (IF has THEN <<cur>> \o SplitCells(cells, i + 1, <<>>, FALSE, TRUE, ifs)
-          ELSE SplitCells(cells, i + 1, <<>>, FALSE, wsf, ifs))
-    ELSE (IF has THEN <<cur>> \o SplitCells(cells, i + 1, <<>>, FALSE, FALSE, ifs)
-          ELSE IF wsf THEN SplitCells(cells, i + 1, <<>>, FALSE, FALSE, ifs)
-          ELSE << <<>> >> \o SplitCells(cells, i + 1, <<>>, FALSE, FALSE, ifs))
+         (IF has THEN <<cur>> \o SplitCells(cells, i + 1, <<>>, FALSE, TRUE, ifs, drop)
+          ELSE SplitCells(cells, i + 1, <<>>, FALSE, wsf, ifs, drop))
+    ELSE (IF has THEN <<cur>> \o SplitCells(cells, i + 1, <<>>, FALSE, FALSE, ifs, drop)
+          ELSE IF wsf \/ drop THEN SplitCells(cells, i + 1, <<>>, FALSE, FALSE, ifs, drop)
+          ELSE << <<>> >> \o SplitCells(cells, i + 1, <<>>, FALSE, FALSE, ifs, drop))
 
-RECURSIVE FieldsOf(_, _)
-FieldsOf(elems, ifs) ==
-  IF elems = <<>> THEN <<>> ELSE SplitCells(Head(elems), 1, <<>>, FALSE, FALSE, ifs) \o FieldsOf(Tail(elems), ifs)
+RECURSIVE FieldsOf(_, _, _)
+FieldsOf(elems, ifs, drop) ==
+  IF elems = <<>> THEN <<>> ELSE SplitCells(Head(elems), 1, <<>>, FALSE, FALSE, ifs, drop) \o FieldsOf(Tail(elems), ifs, drop)
 
 \* "$@"-like lists with no elements give no field at all; any other quoted result is
 \* exactly one field per element.
-Fields(r, q, ifs) == FieldsOf(Elems(r, q, ifs), ifs)
+FieldsD(dv, r, q, ifs) == FieldsOf(Elems(r, q, ifs), ifs, "EmptyFieldsDropped" \in dv)
+Fields(r, q, ifs) == FieldsD({}, r, q, ifs)
 
 \* ------------------------------------------------------------------ rendering of the word
 SubSrc(sub) ==
@@ -541,7 +655,7 @@ StoresOf(f) ==
   CASE f = "ind"   -> IndStores
     [] f = "names" -> << ScalarStores[1] >> \o (IF Wide THEN << Store(VUnset, <<>>, <<":">>), Store(VUnset, <<>>, <<>>) >> ELSE <<>>)
     [] f = "keys"  -> ScalarStores \o ArrayStores
-    [] f \in PatFams /\ ~Wide -> PatStores
+    [] f \in PatFams -> PatStores
     [] OTHER       -> ScalarStores \o ArrayStores \o PosStores
 
 SubjectsOf(f, s) ==
@@ -606,15 +720,15 @@ LawUnquotedSplit(r, fs) ==
      \A i \in 1..Len(fs) : fs[i] # <<>> /\ \A k \in 1..Len(fs[i]) : ~IsWs(fs[i][k])
 \* quoting changes where fields are cut, never their characters (default IFS)
 LawQuotingKeepsText(p, r) ==
-  ~r.err /\ st.ifs = Dflt /\ fam # "test" =>
-     NoWs(TextOfFields(Fields(Sem(fam, st, sj, TRUE, a, p), TRUE, st.ifs)))
-       = NoWs(TextOfFields(Fields(Sem(fam, st, sj, FALSE, a, p), FALSE, st.ifs)))
+  q /\ ~r.err /\ st.ifs = Dflt /\ fam # "test" =>      \* (checked from the quoted twin only: it covers both)
+     NoWs(TextOfFields(Fields(Sem({}, fam, st, sj, TRUE, a, p), TRUE, st.ifs)))
+       = NoWs(TextOfFields(Fields(Sem({}, fam, st, sj, FALSE, a, p), FALSE, st.ifs)))
 \* ${x:-w} and ${x-w} differ only when x is set and null; same for the other pairs
 LawColon(p, r) ==
   fam = "test" =>
      LET pair == CASE a.op = ":-" -> "-" [] a.op = ":=" -> "=" [] a.op = ":?" -> "?" [] a.op = ":+" -> "+"
                    [] a.op = "-" -> ":-" [] a.op = "=" -> ":=" [] a.op = "?" -> ":?" [] a.op = "+" -> ":+"
-     IN ~IsNull(View(st, sj), st.ifs) => Sem(fam, st, sj, q, [a EXCEPT !.op = pair], p) = r
+     IN ~IsNull(View(st, sj), st.ifs) => Sem({}, fam, st, sj, q, [a EXCEPT !.op = pair], p) = r
 \* # removes a matching prefix, ## at least as much; both leave a suffix of the value (dually % %%)
 LawRemove(p, r) ==
   fam = "rem" /\ ~View(st, sj).list =>
@@ -634,7 +748,7 @@ LawRemove(p, r) ==
 \* ${#x} is the length of "${x}"
 LawLength(r) ==
   fam = "len" /\ ~View(st, sj).list =>
-     r.t = NatText(Len(TextOfFields(Fields(Sem("plain", st, sj, TRUE, A0, <<>>), TRUE, st.ifs))))
+     r.t = NatText(Len(TextOfFields(Fields(Sem({}, "plain", st, sj, TRUE, A0, <<>>), TRUE, st.ifs))))
 \* replacing a literal pattern by itself is the identity; an anchored form that does not match
 \* changes nothing; deleting never makes the value longer
 LawReplace(p, r) ==
@@ -655,27 +769,54 @@ LawAssign(r) ==
 \* ------------------------------------------------------------------ the vector of a state
 \* non-trivial: the operator did something to the parameter's plain expansion
 Nontrivial(r) ==
-  LET plain == Sem("plain", st, sj, q, A0, <<>>) IN
+  LET plain == Sem({}, "plain", st, sj, q, A0, <<>>) IN
   r.err \/ r.kind # plain.kind \/ r.t # plain.t \/ r.vals # plain.vals \/ r.after # st.x
 
 \* Scope of the property as checked here (exclusions):
-\*  - an unquoted list with an empty element under a non-whitespace IFS: the empty fields are C22's subject
 \*  - "${x[*]}" of an associative array with several keys: bash joins in hash order, which is unspecified
 MultiKey(v) == v.k = "assoc" /\ Len(v.akeys) > 1
-ResultScope(r) ==
-  /\ ~(~q /\ ~r.err /\ r.kind = "list" /\ NonWsIfs1(st.ifs) /\ \E i \in 1..Len(r.vals) : r.vals[i] = <<>>)
+\*  - bash 5.2.15 with IFS='' mangles unquoted ${x[@]#p} ${x[@]/p/r} ${x[@]^p} of an ARRAY: the elements come
+\*    out joined and an internal escape byte (\001) appears before each space (not so for $@); a bash defect
+\*  - bash 5.2.15 never matches ${x/*\*/r}: a pattern that starts with * and ends with an ESCAPED * is taken
+\*    to end with a wildcard (match_upattern), so it is anchored at the end by mistake; a bash defect
+ResultScope(r, p) ==
+  /\ ~(~q /\ st.ifs = <<>> /\ fam \in PatFams /\ sj.n = "x" /\ View(st, sj).list)
+  /\ ~(fam = "repl" /\ Len(p) >= 2 /\ p[1].k = "star" /\ p[Len(p)].k = "lit" /\ p[Len(p)].c = "*")
   /\ ~(r.unord /\ r.kind = "list" /\ (r.star \/ (NonWsIfs1(st.ifs) /\ ~q)))
 
+\* what the implementation is known to produce instead: one candidate per non-empty set of the named
+\* deviations that can matter for this vector (they interact, e.g. AssignAt0 with WordQuotesIgnored)
+DevCands(p, r, fs) ==
+  LET vw == View(st, sj)
+      \* cheap necessary conditions, so that Sem is not re-evaluated for switches that cannot matter
+      mayMatter(d) ==
+        CASE d = "ListOpJoined" -> ~q /\ vw.list
+          [] d \in {"ListTestIgnored", "ListAtIgnored"} -> q /\ vw.list
+          [] d = "AssignAt0" -> a.op \in {":=", "="} /\ (vw.list \/ IsPosName(sj.n))
+          [] d = "NegLenClamped" -> a.len # NoLen /\ a.len < 0
+          [] d = "AnchoredReplLiteral" -> a.op \in {"/#", "/%"}
+          [] d = "UnsetTransformed" -> ~vw.set
+          [] d \in {"QSafeUnquoted", "QDoubleQuoted"} -> a.op = "Q"
+          [] d = "KeysJoined" -> ~q
+          [] d = "EmptyFieldsDropped" -> ~q /\ NonWsIfs1(st.ifs)
+          [] d = "SuffixStopsAtNewline" -> a.op = "%" /\ \E i \in 1..Len(st.x.s) : st.x.s[i] = "NL"
+          [] OTHER -> TRUE
+      ds == { d \in DevsOf(fam) \cup {"EmptyFieldsDropped"} : mayMatter(d) }
+      cand(nm, dv) == LET rd == Sem(dv, fam, st, sj, q, a, p) IN
+                      [name |-> nm, err |-> rd.err, fields |-> IF rd.err THEN <<>> ELSE FieldsD(dv, rd, q, st.ifs), after |-> rd.after]
+      differs(c) == c.err # r.err \/ c.fields # fs \/ c.after # r.after
+  IN { c \in { cand(S, S) : S \in (SUBSET ds) \ {{}} } : differs(c) }
+
 Vec(p, r, fs) ==
-  [fam |-> fam, store |-> st, word |-> Word(fam, sj, q, a, p), quoted |-> q,
+  [fam |-> fam, devs |-> DevCands(p, r, fs), store |-> st, word |-> Word(fam, sj, q, a, p), quoted |-> q,
    err |-> r.err, fields |-> fs, after |-> r.after, unord |-> r.unord \/ MultiKey(st.x) \/ MultiKey(r.after),
-   op |-> a.op, nontrivial |-> Nontrivial(r), scope |-> ResultScope(r)]
+   op |-> a.op, nontrivial |-> Nontrivial(r), scope |-> ResultScope(r, p)]
 
 \* one invariant: bind pattern, result and fields once, check the laws, emit the vector
 Inv ==
   phase # "vec" \/
   LET p  == PatOf(AlphaOf(fam), pat)
-      r  == Sem(fam, st, sj, q, a, p)
+      r  == Sem({}, fam, st, sj, q, a, p)
       fs == IF r.err THEN <<>> ELSE Fields(r, q, st.ifs)
   IN /\ LawQuotedCount(r, fs) /\ LawUnquotedSplit(r, fs) /\ LawQuotingKeepsText(p, r)
      /\ LawColon(p, r) /\ LawRemove(p, r) /\ LawLength(r) /\ LawReplace(p, r) /\ LawCase(r) /\ LawAssign(r)
